@@ -192,6 +192,14 @@ theorem pair_collect_exact {s s' : Pair.St} (h : Pair.collect s = .ok s') :
   simp only [Pair.collectable, hm, Bool.and_eq_true, decide_eq_true_eq, Bool.not_eq_true'] at c0 cb0 p0 d0 c1 cb1 p1 d1
   exact ⟨⟨c0, cb0, p0, d0, r0, a0, b0, t0⟩, ⟨c1, cb1, p1, d1, r1, a1, b1, t1⟩, rfl, rfl, rfl, rfl, rfl⟩
 
+/-- **nothing else moves**: a successful operation of any pair type (swap, collection, deposit, …) never
+    lowers the asset or LP balances of any user other than the sender of the message; in particular
+    charging, collecting and burning fees takes nothing from bystanders -/
+theorem pair_others_never_lose {cv : Pair.Curve} {s s' : Pair.St} {op : Pair.Op} (h : Pair.step cv s op = .ok s')
+    (v : Nat) (hv : op.actor ≠ some v) :
+    (s.user v).a ≤ (s'.user v).a ∧ (s.user v).b ≤ (s'.user v).b ∧ (s.user v).lp ≤ (s'.user v).lp :=
+  Pair.others_never_lose h v hv
+
 /-- `UpdateConfig{fee_collector_addr}`: only the owner; it moves nothing and only re-targets later
     collections -/
 theorem pair_set_collector {s s' : Pair.St} {o b : Bool} (h : Pair.setCollector s o b = .ok s') :
